@@ -300,3 +300,18 @@ def set_process_time_zone(ctx):
     os.environ["TZ"] = tz
     time.tzset()
     ctx.note_set("process_time_zones", tz)
+
+
+def scratch_dir(prefix):
+    """A scratch directory whose PATH is the same for every case of this process (the callers remove it after each case, so it is re-created
+    empty each time): files of consecutive cases are written to the very same paths, as a user re-writing and re-loading one file would -
+    anything the library remembers about a path (a cache keyed on the file name) then meets changed content."""
+    d = os.path.join(os.environ.get("VERIF_TMP", "/var/tmp"), "verif-%s%d" % (prefix, os.getpid()))
+    if os.path.isdir(d):
+        for f in os.listdir(d):
+            try:
+                os.remove(os.path.join(d, f))
+            except OSError:
+                pass
+    os.makedirs(d, exist_ok=True)
+    return d
